@@ -14,7 +14,9 @@ package ext
 //@   modifies ghost.flagSet at recv
 //@   ensures ghost(flagSet, recv) == 0
 
+// IsSet reads the flag: sequential view (the callers under contract read it while holding their mutex)
 //@ iface MutFlag.IsSet
+//@   ensures result <==> ghost(flagSet, recv) == 1
 //@ iface MutFlag.Wait
 //@ iface Flag.IsSet
 //@ iface Flag.Wait
